@@ -13,14 +13,30 @@ CONFIG = {
         "V.C16.delegated_no_second_wellknown", "V.C16.targets_nonempty_or_error", "V.C16.roundtrip_uses_only_targets", "V.C16.roundtrip_attempts_are_spec_results",
         # well-known
         "V.C16.wellknown_honoured_iff", "V.C16.wellknown_honoured_only_if", "V.C16.cache_lifetime_prefers_max_age",
+        "V.C16.wellknown_names_mserver", "V.C16.decodeDoc_exact_key", "V.C16.decodeDoc_names", "V.WellKnown.maxAgeLines_eq",
         # network policy
         "V.C16.contains_iff_prefix", "V.C16.isAllowed_iff_permitted", "V.C16.control_permits_iff",
+        "V.C16.policy_connections_permitted", "V.C16.listsPermit_iff_permitted", "V.Resolve.srvTargetsGo_eq",
     ],
     "rule": "resolve: server names (DNS names, IPv4 / bracketed IPv6 literals, with and without port, every invalid shape in the pools) x "
             "well-known outcome for the name (404/500/301/oversized with and without Content-Length/malformed/empty/missing/wrong type/"
             "transport error/delegation to any generated name) x a second-level document that must never be fetched x scripted SRV answers "
             "for _matrix-fed and _matrix of the name and of the delegate (NXDOMAIN, no data, SERVFAIL, lame referral, 1 record, 2-4 records "
-            "sent out of priority order, root target), through in-process stubs of http.DefaultTransport and net.DefaultResolver; "
+            "sent out of priority order, the ROOT target `.` alone and among other records), through in-process stubs of http.DefaultTransport "
+            "and net.DefaultResolver; "
+            "policy / policy_forbidden: REAL clients (fclient.NewClient) with WithAllowDenyNetworks x {plain, WithDNSCache (cache lists = the "
+            "client's / allow-everything / nil), WithWellKnownSRVLookups, both} x 10 allow / deny configurations (none, everything allowed, a "
+            "/24 denied, only a /24 and ::1 allowed, every address denied, an unparsable entry before the one that matters, a /32 allowed, "
+            "only ::1 denied, an IPv4-mapped /128 denied, IPv6 not allowed) x 15 server names (names with one / two addresses, upper case, "
+            "address literals, IPv6 literal and a name with an IPv6 address, with and without port) x 7 well-known scripts (404, delegation to a "
+            "name with port / an address literal / a name without port / an IPv6 literal, a redirect to another host's document, a redirect to "
+            "a 404) against real listeners on loopback addresses (a federation server on 0.0.0.0 and on ::1, an HTTPS server on port 443 of "
+            "three addresses serving /.well-known/matrix/server; fake DNS with fixed addresses); every listener records each connection it "
+            "ACCEPTS; compared with the model: the set of (address, listener) a connection arrived on and whether the request was answered; "
+            "policy_forbidden (spec stream): the arrivals on addresses the configured lists do not permit -- classified in the harness with "
+            "net.ParseCIDR / IPNet.Contains, in the driver with Cidr.Spec.permitted -- must be none, by whatever name or path (federation "
+            "request, DNS cache, well-known fetch, redirect) the address was reached; quick runs three list configurations on five names for "
+            "every option plus 120 random combinations, thorough the whole product; "
             "roundtrip: a fresh fclient.Client (WithWellKnownSRVLookups) sends two requests to 13 names x delegations x SRV answers. Every host name "
             "has its own loopback address (fake DNS) and four servers listen on all of them, selected by the port: one answers, one refuses "
             "every TLS handshake, one closes the connection at once, one (flaky) drops the first K connections of a request after reading the "
@@ -34,7 +50,11 @@ CONFIG = {
             "re-using the targets that just failed (what the code does) is allowed, the property only says where connections may go; "
             "wellknown: real HTTPS server (Content-Length / chunked) and scripted transport x status x sizes 51199..51202, 60000, 100 KiB x "
             "padding inside/after/before the document x 60 documents (m.server missing/empty/null/non-string/case-folded/duplicated, non-objects, "
-            "malformed) x 50 Cache-Control values x 22 Expires values x 22 Content-Length values; "
+            "malformed) x 50 Cache-Control values x 9 sets of TWO OR THREE Cache-Control header lines (max-age on the first, the second, none) x "
+            "22 Expires values x 22 Content-Length values; spec stream: honoured only if status 200, at most 50 KiB and a member whose key is "
+            "EXACTLY m.server (WellKnown.Spec.namesServer on the parsed document -- a key that merely folds to it is another key), to that "
+            "name, with the lifetime from max-age on whichever Cache-Control line in preference to Expires; documents with several members "
+            "named m.server are `unspecified`; "
             "cidr: allow/deny lists of 0-4 entries from 50 parsable + 45 unparsable CIDR texts + random ones (unparsable entry at every position, "
             "systematically and at random) x addresses on the first/last address of each range, one before, one after, random inside, the same "
             "low 32 bits in the other family, IPv4 / IPv4-mapped / IPv6 spellings x networks tcp4 tcp6 tcp udp unix... x 45 malformed addresses; "
@@ -44,21 +64,35 @@ CONFIG = {
             "An op is non-trivial when it is not a bare text-parser probe; distinct by op line.",
     "nontrivial": lambda op, impl: not (op.startswith("cidr.parse") or op.startswith("resolve.validate")),
     "trusted": COMMON_TRUSTED + [
-        "net.ParseIP / net.ParseCIDR (netip.ParseAddr) modelled by VModel.Cidr.parseAddr / parseCIDR; net.SplitHostPort, time.Parse, "
-        "encoding/json (m.server decoding: VDriver/Wellknown.lean decodeGo) are std-lib results taken as inputs; validated by correspondence",
+        "net.ParseIP / net.ParseCIDR (netip.ParseAddr) modelled by VModel.Cidr.parseAddr / parseCIDR; net.SplitHostPort, time.Parse are "
+        "std-lib results taken as inputs; encoding/json's syntax is VModel.Json.parse, its decoding of a document into "
+        "map[string]json.RawMessage and of the member m.server into a string is VModel.WellKnown.decodeDoc (of several members with that "
+        "key the last; null leaves the address empty); validated by correspondence",
         "net/http (client, redirects, chunked decoding), the TLS dialer and Go's DNS resolver (ordering of SRV records by priority / weight, "
         "rejection of malformed targets) are parameters of the models (oracles), exercised by the harness but not verified",
     ],
     "assumptions": [
-        "partial claim: the theorems are about the decision logic (resolution, per-target Host / SNI, retry over targets, allow / deny control); "
-        "that net/http then dials exactly URL.Host with the transport's TLS ServerName, and that net.Dialer calls ControlContext for every "
-        "connection attempt, is std-lib behaviour exercised by the roundtrip op but not verified; getTransport's per-SNI transport map, the "
-        "reaper and the DNS cache dial path (DNSCache.DialContext) are not modelled here (C19 covers the cache)",
+        "partial claim: the theorems are about the decision logic (resolution, per-target Host / SNI, retry over targets, allow / deny control, "
+        "which control functions guard which dial path); that net/http then dials exactly URL.Host with the transport's TLS ServerName, that "
+        "net.Dialer calls ControlContext before every connect and tries a name's addresses in order, and that http.Client sends redirects through "
+        "the same transport, is std-lib behaviour exercised by the roundtrip and policy ops (real sockets) but not verified; getTransport's "
+        "per-SNI transport map and the reaper are not modelled; the DNS cache is modelled here only as a dial path (resolution, then every "
+        "address through the chained control functions; C19 covers its bookkeeping)",
+        "policy_connections_permitted reads 'configured lists' as: the client's WithAllowDenyNetworks lists when at least one is non-empty, and "
+        "the lists its DNS cache was created with when it has a cache. NOT covered by the assigned findings and left as it is: "
+        "NewDNSCache(size, d, nil, nil) builds a dialer whose control function denies EVERY address (isAllowed with empty lists is false), so "
+        "such a cache makes the client unable to connect at all (policy ops with cache lists `nil`: no connection, model and code agree)",
         "Spec reading: a lookup of _matrix-fed._tcp that fails for a reason other than 'not found' ends SRV discovery (the code then uses "
         "port 8448 without consulting _matrix._tcp); the Matrix text only distinguishes found / not found",
         "Spec reading: an invalid delegated m.server is refused (error), not treated as 'no well-known'",
-        "resolve_eq_spec assumes a sane resolver (a successful SRV lookup has at least one record, targets are non-empty): what "
-        "net.Resolver.LookupSRV guarantees; without it the model exhibits the index panic site target[len(target)-1]",
+        "resolve_eq_spec assumes only that a successful SRV lookup has at least one record (net.Resolver.LookupSRV reports 'no such host' "
+        "otherwise; with zero records and no error the code would stop at port 8448 without consulting _matrix._tcp); nothing is assumed "
+        "about the targets: the root `.` (which the resolver passes on) and an empty target yield no target, and the index expression "
+        "target[len(target)-1] is gone (finding R8)",
+        "Spec reading: an SRV record whose target is the root names no host (RFC 2782: the service is decidedly not available); when every "
+        "record found is such a record resolution yields NO target and RoundTrip gives up (targets_nonempty_or_error says exactly when)",
+        "Spec reading: a well-known document with several members named m.server is outside the quantifier (JSON leaves duplicate names "
+        "open): spec stream 'unspecified'; the code takes the last one (map semantics)",
         "server names whose port is spelled with more than 5 digits (leading zeros) or whose DNS name exceeds 255 bytes are accepted by the code "
         "and lie outside the appendix grammar: spec stream 'unspecified' (decision of the lead; C17 territory)",
         "no copy of the Matrix specification in the sandbox: Resolve.Spec is transcribed from the property text, the comments in resolve.go "
